@@ -133,6 +133,9 @@ def compare_shapes(ctx, rid, ref, cur):
         # leaves
         if r.get("size") != c.get("size"):
             fail(path, f"{t} size {r.get('size')}", f"{t} size {c.get('size')}", cid)
+        elif r.get("desc") != c.get("desc"):
+            fail(path, f"{t}: description values accepted under {r.get('desc')}", f"accepted under {c.get('desc')}: some values now go to another "
+                 f"alternative of the enclosing choice (another encoding) or are refused", cid)
         else:
             R.ok(rid, path + f" {t}")
 
